@@ -227,6 +227,15 @@ def closure_probes():
     P.append(("closure-in-return-and-throw", "function f(){ var x = 1; try { throw function(){ return x; }; } catch (g) { x = 8; return g(); } } log(f());"))
     P.append(("closure-in-ternary-and-args", "function f(c){ var x = 1; var g = c ? function(){ return x; } : null; x = 9; return [g(), [function(){ return x; }][0]()]; } log(f(true));"))
     P.append(("closure-in-label-and-block", "function f(){ var x = 1, g; lab: { { g = function(){ return x; }; } x = 10; } return g(); } log(f());"))
+    # every way of reading / writing a captured variable, in the declaring function and in the closure
+    P.append(("captured-var-every-access",
+              "function f(p){ var x = 1, u; var get = function(){ return [x, p, typeof u]; }; var r = [typeof x, typeof p, typeof u]; "
+              "x += 5; r.push(x); x *= 2; r.push(x); x -= 1; r.push(x); x++; r.push(x); ++x; r.push(x); r.push(x--); r.push(--x); x <<= 1; r.push(x); x **= 2; r.push(x); "
+              "p += 'q'; p += 'r'; r.push(p); u = typeof x; r.push(u, x ? 'T' : 'F', -x, !x, [x][0], {k: x}.k, (x, x)); return r.concat(get()); } log(f('P'));"))
+    P.append(("captured-var-closure-side-access",
+              "function f(p){ var x = 1; var bump = function(){ x += 5; x++; p += '!'; return [typeof x, typeof p, x, p]; }; var a = bump(); x += 1; var b = bump(); return [a, b, x, p]; } log(f('s'));"))
+    P.append(("captured-var-in-loops",
+              "function f(){ var acc = 1, fs = []; for (var i = 1; i <= 3; i++) { acc *= 3; fs.push(function(){ return acc; }); } acc -= 4; return [acc, fs[0](), fs[2](), typeof acc, typeof i]; } log(f());"))
     P.append(("left-to-right",
               "function t(k){ log(k); return k; } var o = {m: function(a, b){ return a + b; }}; log(t(1) + t(2) * t(3), o.m(t(4), t(5)), [t(6), t(7)][t(0)], t(8) < t(9), (t(10), t(11)));"))
     P.append(("assignment-order",
